@@ -88,11 +88,41 @@ func VerifC11WireLines() {
 	pool := []string{"NOOP", "BOGUS", "FETCH 1 (", "SELECT INBOX", "LOGIN alice pw1", "LOGIN alice \"pw", "SEARCH OR", "UID FETCH 1:* (FLAGS)", "STORE 1 +FLAGS (\\Seen"}
 	var script []byte
 	var tags []string
+	// what each line must be answered with given the protocol state the earlier lines produced (C18 gating seen on
+	// the wire): NOOP always OK; malformed lines BAD; SELECT needs a LOGIN, UID FETCH a SELECT, a second LOGIN is refused
+	var want []string
+	authed, selected := false, false
 	for i := 0; i < m; i++ {
 		tag := "t" + string(rune('0'+i))
 		tags = append(tags, tag)
-		script = append(script, (tag + " " + pool[vsymChoice("line", len(pool))] + "\r\n")...)
+		li := vsymChoice("line", len(pool))
+		script = append(script, (tag + " " + pool[li] + "\r\n")...)
+		switch li {
+		case 0:
+			want = append(want, "OK")
+		case 3:
+			if authed {
+				want, selected = append(want, "OK"), true
+			} else {
+				want = append(want, "NO")
+			}
+		case 4:
+			if authed {
+				want = append(want, "refused") // NO or BAD
+			} else {
+				want, authed = append(want, "OK"), true
+			}
+		case 7:
+			if selected {
+				want = append(want, "OK")
+			} else {
+				want = append(want, "NO")
+			}
+		default:
+			want = append(want, "BAD")
+		}
 	}
+	want = append(want, "OK")
 	tags = append(tags, "z")
 	script = append(script, "z LOGOUT\r\n"...)
 	conn := &verifScriptConn{in: script}
@@ -102,7 +132,7 @@ func VerifC11WireLines() {
 	vsymSched()
 	vsymCover("lines-served")
 	vsymAssert(err == nil, "the session loop ends without an error after LOGOUT")
-	var got []string
+	var got, kinds []string
 	for _, l := range conn.lines {
 		if strings.HasPrefix(l, "* ") || strings.HasPrefix(l, "+ ") || l == "+" {
 			continue
@@ -110,6 +140,7 @@ func VerifC11WireLines() {
 		f := strings.Fields(l)
 		if len(f) >= 2 && (f[1] == "OK" || f[1] == "NO" || f[1] == "BAD") {
 			got = append(got, f[0])
+			kinds = append(kinds, f[1])
 		} else {
 			vsymAssert(false, "every line the session writes is an untagged response, a continuation request or a tagged completion result")
 		}
@@ -118,6 +149,7 @@ func VerifC11WireLines() {
 	if len(got) == len(tags) {
 		for i := range tags {
 			vsymAssert(got[i] == tags[i], "completion results carry the tags of the lines, in order")
+			vsymAssert(kinds[i] == want[i] || (want[i] == "refused" && kinds[i] != "OK"), "each line is accepted, refused or rejected as the protocol state at that point demands (gating by LOGIN / SELECT)")
 		}
 	}
 }
